@@ -1,9 +1,16 @@
-//! Verification hook (compiled only with `--cfg yift_jawk_verif`): puts the hasher seed of
-//! the `--unique` set behind a seam so that a simulated run is exactly repeatable.
-//! When no seed is set the behaviour is the shipped one (std's `RandomState`).
+//! Verification hooks (compiled only with `--cfg yift_jawk_verif`).
+//! H1 puts the hasher seed of the `--unique` set behind a seam so that a simulated run is
+//! exactly repeatable. When no seed is set the behaviour is the shipped one (std's
+//! `RandomState`).
+//! H2 puts the opening of input files behind a seam so that a simulator can decide how the
+//! bytes of a file argument are delivered (short reads, interruptions, failures). When no
+//! opener is set, or the opener declines a path, the file is opened as shipped.
 #![allow(deprecated)]
 
-use std::cell::Cell;
+use std::cell::{Cell, RefCell};
+use std::fs::File;
+use std::io::Read;
+use std::path::Path;
 use std::collections::hash_map::{DefaultHasher, RandomState};
 use std::hash::{BuildHasher, Hasher, SipHasher};
 
@@ -61,5 +68,39 @@ impl Hasher for SeededHasher {
             SeededHasher::Random(h) => h.write(bytes),
             SeededHasher::Seeded(h) => h.write(bytes),
         }
+    }
+}
+
+/// Decides how an input file is opened: `None` means "open the real file".
+pub type FileOpener = Box<dyn Fn(&Path) -> Option<std::io::Result<Box<dyn Read>>>>;
+
+thread_local! {
+    static FILE_OPENER: RefCell<Option<FileOpener>> = const { RefCell::new(None) };
+}
+
+/// Set (or clear) the opener consulted for input files opened afterwards on this thread.
+pub fn set_file_opener(opener: Option<FileOpener>) {
+    FILE_OPENER.with(|o| *o.borrow_mut() = opener);
+}
+
+pub enum InputFile {
+    Real(File),
+    Simulated(Box<dyn Read>),
+}
+
+impl Read for InputFile {
+    fn read(&mut self, buf: &mut [u8]) -> std::io::Result<usize> {
+        match self {
+            InputFile::Real(f) => f.read(buf),
+            InputFile::Simulated(r) => r.read(buf),
+        }
+    }
+}
+
+pub fn open_input_file(path: &Path) -> std::io::Result<InputFile> {
+    let simulated = FILE_OPENER.with(|o| o.borrow().as_ref().and_then(|open| open(path)));
+    match simulated {
+        Some(r) => r.map(InputFile::Simulated),
+        None => File::open(path).map(InputFile::Real),
     }
 }
